@@ -120,7 +120,9 @@ impl NodeProcessor for RemoveUnusedVariableProcessor {
                                 *statement = expressions_as_statement(values);
                                 true
                             }
-                        } else if usages.iter().any(|used| !used) {
+                        } else if usages.iter().any(|used| !used)
+                            && !has_duplicated_variable_names(assign)
+                        {
                             let mut assignments: Vec<_> = assign
                                 .iter_variables()
                                 .zip(usages.iter())
@@ -225,6 +227,20 @@ impl NodeProcessor for RemoveUnusedVariableProcessor {
             });
         }
     }
+}
+
+/// Variables can get re-ordered when only some of them are unused, which is not
+/// possible when two of them share the same name (the last one is the visible one).
+fn has_duplicated_variable_names(assign: &VariableAssignment) -> bool {
+    assign
+        .iter_variables()
+        .enumerate()
+        .any(|(index, variable)| {
+            assign
+                .iter_variables()
+                .skip(index + 1)
+                .any(|other| other.get_name() == variable.get_name())
+        })
 }
 
 pub const REMOVE_UNUSED_VARIABLE_RULE_NAME: &str = "remove_unused_variable";
